@@ -135,30 +135,29 @@ def find_function(tree, name):
     raise Fail(f"function {name} not found")
 
 
-def tr_heartbeat_merge(repo):
-    tree = ast.parse(open(os.path.join(repo, "aw_transform/heartbeats.py")).read())
-    fn = find_function(tree, "heartbeat_merge")
-    args = [a.arg for a in fn.args.args]
-    if args != ["last_event", "heartbeat", "pulsetime"] or fn.args.vararg or fn.args.kwarg or fn.args.defaults:
-        raise Fail("signature changed")
-    body = stmts(fn.body, {a: a for a in args}, "None", ("Some %s", "None"))
-    return ("Definition gen_heartbeat_merge (last_event heartbeat : event) (pulsetime : Z) : option event :=\n  "
-            + body + ".\n")
-
-
 HEADER = ("(* generated from /repo by translate/py2v.py on every run — do not edit *)\n"
           "From AwVerif Require Import Base.Prelude.\n\n")
 
-# file -> [(kernel name, translator)]
-KERNELS = {
-    "GenHeartbeat": [("heartbeat_merge", tr_heartbeat_merge)],
-}
+def load_kernels():
+    """Every translate/k_*.py module contributes KERNELS: {GenFile: [(kernel name, translator)]}."""
+    import glob
+    import importlib
+    here = os.path.dirname(os.path.abspath(__file__))
+    if here not in sys.path:
+        sys.path.insert(0, here)
+    sys.modules.setdefault("py2v", sys.modules[__name__])
+    kernels = {}
+    for f in sorted(glob.glob(os.path.join(here, "k_*.py"))):
+        mod = importlib.import_module(os.path.basename(f)[:-3])
+        for fname, ks in mod.KERNELS.items():
+            kernels.setdefault(fname, []).extend(ks)
+    return kernels
 
 
 def main():
     repo, out = sys.argv[1], sys.argv[2]
     os.makedirs(out, exist_ok=True)
-    for fname, kernels in KERNELS.items():
+    for fname, kernels in load_kernels().items():
         text = HEADER
         for kname, tr in kernels:
             try:
